@@ -395,6 +395,16 @@ def assembleDs (attrs : List String) (vars : List (String × XArr)) (dst : GeoBo
   let out ← vars.mapM (reprojectVar dst)
   return (attrs.filter (fun k => !spatialAttributes.contains k), out)
 
+/-! ### option forwarding: `_extract_output_geobox_params` (667-673) -/
+
+def gboxKeys : List String := ["tight", "anchor", "resolution", "shape", "tol", "round_resolution"]
+
+/-- `_extract_output_geobox_params(kw)` → `(out, kw')`: every key of `gboxKeys` that is **present** in
+`kw` is moved to `out` with its value — whatever the value is (`0`, `0.0`, `False`, `None` included);
+the other keys stay.  Values are opaque (`α`). -/
+def extractOutputGeoboxParams {α : Type} (kw : List (String × α)) : List (String × α) × List (String × α) :=
+  (kw.filter (fun kv => gboxKeys.contains kv.1), kw.filter (fun kv => !gboxKeys.contains kv.1))
+
 /-- The Dataset seen as one object by `_locate_geo_info(ds)`: all dimensions and the merged
 coordinates of its variables (first occurrence of a name wins – the reprojected variables carry
 identical coordinates), no `grid_mapping` of its own (pruned from the Dataset attrs). -/
